@@ -25,7 +25,7 @@ import (
 	"verif/vk"
 )
 
-const c06Rule = "one inbound message built field by field from a defect matrix (BeginString ok/other/junk; Sender/TargetCompID ok/swapped/foreign/empty/absent; optional Sub/Location/OnBehalfOf/DeliverTo IDs; SendingTime now / inside / outside the latency window / malformed / empty / absent; MsgSeqNum at/above/below expected, absent/empty/junk; PossDup and OrigSendingTime combinations; application and administrative types) delivered in the normal, recovering, test-request-pending and combined states and in the logon state (the Logon plain, carrying ResetSeqNumFlag=Y, or met by ResetOnLogon), for every BeginString, CheckLatency on/off, MaxLatency 60/120/3600 s, with and without a dictionary; when the number was above the expected one the gap is then filled and the callbacks are looked at again; non-trivial = a parsable message with at least one defect, or a defect-free control; distinct = distinct (configuration, state, message shape)"
+const c06Rule = "one inbound message built field by field from a defect matrix (BeginString ok/other/junk; Sender/TargetCompID ok/swapped/foreign/empty/absent/a prefix/other case/characters shifted across the boundary between the two; optional Sub/Location/OnBehalfOf/DeliverTo IDs; SendingTime now / inside / outside the latency window / malformed / empty / absent; MsgSeqNum at/above/below expected, absent/empty/junk; PossDup and OrigSendingTime combinations; application and administrative types) delivered in the normal, recovering, test-request-pending and combined states and in the logon state (the Logon plain, carrying ResetSeqNumFlag=Y, or met by ResetOnLogon), for every BeginString, CheckLatency on/off, MaxLatency 60/120/3600 s, with and without a dictionary; when the number was above the expected one the gap is then filled and the callbacks are looked at again; non-trivial = a parsable message with at least one defect, or a defect-free control; distinct = distinct (configuration, state, message shape)"
 
 func c06() *stats.Collector {
 	c := stats.Get("C06")
@@ -153,7 +153,10 @@ func c06Property(t *rapid.T) {
 			d.begin = rapid.SampledFrom([]string{"other", "junk"}).Draw(t, "d-begin")
 		case "compid":
 			which := rapid.SampledFrom([]string{"sender", "target", "both"}).Draw(t, "d-which")
-			v := rapid.SampledFrom([]string{"swapped", "foreign", "empty", "absent"}).Draw(t, "d-compid")
+			v := rapid.SampledFrom([]string{"swapped", "foreign", "empty", "absent", "shifted-right", "shifted-left", "prefix", "other-case"}).Draw(t, "d-compid")
+			if strings.HasPrefix(v, "shifted") {
+				which = "both" // characters moved across the boundary between the two fields: both are wrong, their concatenation is not
+			}
 			if which != "target" {
 				d.sender = v
 			}
@@ -213,8 +216,15 @@ func c06Property(t *rapid.T) {
 			v = ""
 		case "absent":
 			v = "\x00absent"
+		case "shifted-right":
+			v = map[string]string{"PEER": "PEERE", "ENG": "NG"}[ok]
+		case "shifted-left":
+			v = map[string]string{"PEER": "PEE", "ENG": "RENG"}[ok]
+		case "prefix":
+			v = ok[:len(ok)-1]
+		case "other-case":
+			v = strings.ToLower(ok)
 		}
-		_ = ok
 		return &v
 	}
 	o.Sender = val(d.sender, "PEER", "ENG")
